@@ -146,7 +146,7 @@ def judge(prog, r, rp, q, qdesc, res, ren):
     old, new, kind = ren["old"], ren["new"], ren["kind"]
     by_key = {ps.ev_key(e): e for e in prog.events}
     classes = prog.classes()
-    cls_key = ("lib" if kind in ("lib", "external") else ren["scope"], old)
+    cls_key = ("sib" if kind == "sib" else "lib" if kind in ("lib", "external") else ren["scope"], old)
     anchor = q if q is not None else None
 
     def fail(clause, obs, t, detail):
@@ -196,6 +196,8 @@ def judge(prog, r, rp, q, qdesc, res, ren):
         key_at[(r.main, pos)] = k
     for k, pos in r.lib_tok.items():
         key_at[(r.lib_path, pos)] = k
+    for k, pos in r.sib_tok.items():
+        key_at[(r.sib_path, pos)] = k
     modtok_at = {(p_, (l, c)) for (p_, l, c) in r.mod_tokens}
     changed, changed_mod = set(), set()
     for path, apath in pairs.items():
@@ -238,7 +240,7 @@ def judge(prog, r, rp, q, qdesc, res, ren):
             fail("missing", "self" if q is not None and k == ps.ev_key(q) else "other", by_key[k],
                  "asked at %s: token %s of the renamed binding %s was not renamed" % (qdesc, k, cls_key))
         for k in sorted(changed):
-            if not by_key[k]["det"] and by_key[k]["b"] == 0 and not by_key[k].get("lc"):
+            if not by_key[k]["det"] and by_key[k]["b"] == 0 and not by_key[k].get("lc") and not by_key[k].get("sc"):
                 # an unbound / builtin name (it stands for any identifier defined outside the
                 # program) is not a token of the renamed binding
                 fail("captured", "undetermined", by_key[k],
@@ -293,7 +295,8 @@ def run_case(item):
         requests.append((None, "the resource %s" % r.lib_path, (r.lib_path, None)))
         new = ren["new"]
     else:
-        cls_key = ("lib" if ren["kind"] in ("lib", "external") else ren["scope"], ren["old"])
+        cls_key = ("sib" if ren["kind"] == "sib" else "lib" if ren["kind"] in ("lib", "external") else ren["scope"],
+                   ren["old"])
         requests = [(q, str(ps.ev_key(q)), places[ps.ev_key(q)]) for q in pre.classes()[cls_key]
                     if not places[ps.ev_key(q)][0].startswith("<outside>/")]
         new = NEW
